@@ -621,7 +621,8 @@ def run_check(pid_, tier, seed):
     if changed and not os.environ.get("VERIF_NO_ESCALATE"):
         budget = float(os.environ.get("VERIF_ESCALATE_BUDGET", "75"))
         k = 0
-        while time.time() - t0 < budget and k < 12:
+        last = time.time() - t0           # the first batch is the yardstick for one more round
+        while time.time() - t0 + last < budget and k < 12:
             if any(r["spec"] and not r.get("crash") and not excused(prop, known, r) for r in recs):
                 break
             k += 1
@@ -634,8 +635,7 @@ def run_check(pid_, tier, seed):
                 corr_broken = "driver/correspondence machinery failed: %r" % e
                 recs += evaluate_parallel(pid_, more, with_model=False)
             extra_cases += len(more)
-            if (time.time() - t1) * 2 > budget:      # one more round would blow the budget
-                break
+            last = time.time() - t1
         notes.append("tracklib sources differ from the validated snapshot (%s): %d extra cases from %d more seeds" % (
             ", ".join(changed[:6]) + (" ..." if len(changed) > 6 else ""), extra_cases, k))
         say("note: %s" % notes[-1])
